@@ -251,6 +251,11 @@ class Runner:
                     text = ""
                 death = classify_death(text, p.returncode, timed_out)
                 death["exit_code"] = p.returncode
+                dbg = os.environ.get("VERIF_DEBUG_DIR")
+                if dbg:
+                    os.makedirs(dbg, exist_ok=True)
+                    with open(os.path.join(dbg, "%s.stderr" % started), "w") as fh:
+                        fh.write(text)
                 results[started] = {"death": death}
                 skip += ndone + 1
             else:
